@@ -27,6 +27,7 @@ from math import ceil
 from jinja2 import Environment, FileSystemLoader
 from cantools.database.can.node import Node as CanNode
 from fcp.specs.struct_field import StructField
+from fcp.specs.type import SignedType
 from fcp.specs.v2 import FcpV2
 from dataclasses import dataclass
 from fcp.result import Err
@@ -181,7 +182,7 @@ def is_signed(value: Value) -> bool:
         bool: True if the value is signed, False otherwise
 
     """
-    return bool(value.type.name.startswith("i"))
+    return isinstance(value.type, SignedType)
 
 
 def create_can_signals(
